@@ -194,7 +194,7 @@ def run(ctx):
     corpus = []
     if os.path.isdir(cdir):
         for fn in sorted(os.listdir(cdir)):
-            if fn.endswith(".json"):
+            if fn.endswith(".json") and not fn.startswith("hp_"):      # hp_*: handle programs, run by handleprog.stream
                 c = json.load(open(os.path.join(cdir, fn)))
                 corpus.append((c["ds"], [c["prog"]], 0, 0, False))
     results = _run_jobs(ctx, corpus + jobs)
